@@ -27,6 +27,7 @@ static inline void vfh_coin_mod(mpz_ptr r, mpz_srcptr m) {
   unsigned long mm = mpz_get_ui(m);
   vf_assume(mpz_sgn(m) > 0);
   if (vfh_fixed_used < vfh_nfixed) { vfh_lastcoin = (unsigned long)vfh_fixed[vfh_fixed_used++] % mm; }
+  else if (mm == 1) vfh_lastcoin = 0;     // the only value in [0,1): stays concrete
   else vfh_lastcoin = vf_nondet_below(mm);
 #ifdef H_COINS_UNITS
   { mpz_t g_, v_; mpz_init(g_); mpz_init_set_ui(v_, vfh_lastcoin); mpz_gcd(g_, v_, m); vf_assume(mpz_cmp_ui(g_, 1) == 0); }   // stated bound: rejection sampling of units succeeds at the first draw
